@@ -316,6 +316,9 @@ func decryptASN1(priv *PrivateKey, ciphertext []byte) ([]byte, error) {
 
 func rawDecrypt(priv *PrivateKey, x1, y1 *big.Int, c2, c3 []byte) ([]byte, error) {
 	curve := priv.Curve
+	if !curve.IsOnCurve(x1, y1) {
+		return nil, ErrDecryption
+	}
 	x2, y2 := curve.ScalarMult(x1, y1, priv.D.Bytes())
 	msgLen := len(c2)
 	msg := sm3.Kdf(append(bigIntToBytes(curve, x2), bigIntToBytes(curve, y2)...), msgLen)
@@ -350,6 +353,10 @@ func decryptLegacy(priv *PrivateKey, ciphertext []byte, opts *DecrypterOpts) ([]
 	x1, y1, c3Start, err := bytesToPoint(curve, ciphertext)
 	if err != nil {
 		return nil, ErrDecryption
+	}
+
+	if ciphertextLen < c3Start+sm3.Size {
+		return nil, errCiphertextTooShort
 	}
 
 	//B4, calculate t=KDF(x2||y2, klen)
